@@ -479,7 +479,7 @@ def replay(wit):
 
 LEVEL = 'exploration'
 TECHNIQUE = 'runtime oracle: AST prefix relation between depth-limited and unlimited output with per-node nesting levels, exhaustive small container shapes x all d'
-LEVEL_TEXT = ('All container shapes up to 5 (thorough 6) nodes with unique leaves and every dict-key kind, plus random trees with stdlib call-style types and subclasses, '
+LEVEL_TEXT = ('All container shapes up to 5 (thorough 6) nodes with unique leaves and every dict-key kind, plus random trees with stdlib call-style types, exceptions and subclasses (half of them re-using a finished container object at other nesting levels; a third carrying comments), '
               'are printed at every depth 0..height+2 and None; each node of the unlimited output is checked to be intact above the cut and a placeholder of its own type at or below it.')
 LEVEL_NOTE = 'Nesting levels are derived from the unlimited output (assumed right, judged by C01/C07/C08); inf/nan and str/int subclass leaves are outside the generator.'
 ANCHORS = ['prettyprinter.PrettyContext.nested_call', 'prettyprinter.pretty_call_alt', 'prettyprinter.pretty_bracketable_iterable', 'prettyprinter.pretty_dict', 'prettyprinter.pretty_int', 'prettyprinter.pretty_str']
